@@ -206,7 +206,8 @@ class TelnetTransport(Transport):
             return False
         if not self.socket.isalive():
             return False
-        return True
+        # the peer closing the connection leaves the socket writable; we have seen eof, we are dead
+        return not self._eof
 
     def _read(self, n: int = 65535) -> None:
         """
@@ -242,11 +243,19 @@ class TelnetTransport(Transport):
                     "encountered EOF reading from transport; typically means the device closed the "
                     "connection"
                 ) from exc
+            except OSError as exc:
+                # connection reset, socket timeout, etc.
+                raise ScrapliConnectionError(
+                    f"encountered error reading from transport, connection lost: {exc!r}"
+                ) from exc
 
     @timeout_wrapper
     def read(self) -> bytes:
         if not self.socket:
             raise ScrapliConnectionNotOpened
+
+        if self._eof and not self._cooked_buf:
+            raise ScrapliConnectionError("transport at EOF; no more data to be read")
 
         while not self._cooked_buf and not self._eof:
             self._read()
@@ -264,4 +273,9 @@ class TelnetTransport(Transport):
             raise ScrapliConnectionNotOpened
         if self.socket.sock is None:
             raise ScrapliConnectionNotOpened
-        self.socket.sock.send(channel_input)
+        try:
+            self.socket.sock.send(channel_input)
+        except OSError as exc:
+            raise ScrapliConnectionError(
+                f"encountered error writing to transport, connection lost: {exc!r}"
+            ) from exc
